@@ -164,7 +164,7 @@ def gen_cases(tier, seed):
                 r = np.random.default_rng([seed, 19, 2, k])
                 yield make_desc(r, model, sym, orient(r, g), 4, defaults=True)
     # seeded random part
-    n_rand = 1500 if quick else 20000
+    n_rand = 3000 if quick else 20000
     for i in range(n_rand):
         r = np.random.default_rng([seed, 19, 3, i])
         nmax = 4 if quick else 6
